@@ -181,10 +181,10 @@ DEF_PARSE_SPEC(w, i64, u64, vf_i128, vf_u128)
 #define CSTR_IN(MAXL) VF_INPUT(u8, n_in); __CPROVER_assume(n_in <= (MAXL)); VF_BUF(char, s, (unsigned long)n_in + 1, (MAXL) + 1); s[n_in] = 0; const int n = n_in
 
 #define FROM_CHARS_PRE(T, W, MAXL) VF_INPUT(T, val0); T val = val0; const ref_t r = CAT(s_parse_, SFX_##T)(s, n, base, SGN_##T ? F_MINUS : 0u, LO_##T, HI_##T, 0, W, MAXL)
-#define FROM_CHARS_POST(T)                                                                                               \
+#define FROM_CHARS_POST(T, PTR_GUARD)                                                                                    \
     char *ptr = 0; int ec = 9; from_chars_##T(s, s + n, &val, base, &ptr, &ec);                                          \
     VF_ASSERT(ec == (r.cls == 0 ? 0 : (r.cls == 1 ? 3 : 2)), "from_chars<" #T ">: ec is {} / invalid_argument (no digits) / result_out_of_range exactly beyond numeric_limits min and max"); \
-    VF_ASSERT(ptr == s + r.consumed, "from_chars<" #T ">: ptr == first + longest run matching the pattern (also on result_out_of_range), first if nothing matches"); \
+    if (PTR_GUARD) VF_ASSERT(ptr == s + r.consumed, "from_chars<" #T ">: ptr == first + longest run matching the pattern (also on result_out_of_range), first if nothing matches"); \
     VF_ASSERT(val == (r.cls == 0 ? (T)r.value : val0), "from_chars<" #T ">: value == the parsed number, unmodified on error"); \
     VF_REACH()
 #define TO_INTEGER_PRE(T, W, MAXL) const ref_t r = CAT(s_parse_, SFX_##T)(s, n, base, F_WS | (SGN_##T ? F_MINUS : 0u), LO_##T, HI_##T, 0, W, MAXL)
@@ -236,13 +236,11 @@ void h_from_integer_u8(void) { SYM_BASE(); FMT_PRE(u8, 8, 8, 10);
 /* =========================================== parsing, 8 bit (quick) ===================================================== */
 /*@GROUP name=from_chars_i8 props=C10,C02 kind=K unwind=14 solver=kissat@*/
 void h_from_chars_i8(void) { SYM_BASE(); RANGE_IN(11); FROM_CHARS_PRE(i8, 8, 11);
-  VF_KNOWN(C10_from_chars_out_of_range_ptr, r.cls == 2);
-  FROM_CHARS_POST(i8); }
+  FROM_CHARS_POST(i8, VF_KNOWN_GUARD(C10_from_chars_out_of_range_ptr, r.cls == 2)); }
 
 /*@GROUP name=from_chars_u8 props=C10,C02 kind=K unwind=14 solver=kissat@*/
 void h_from_chars_u8(void) { SYM_BASE(); RANGE_IN(11); FROM_CHARS_PRE(u8, 8, 11);
-  VF_KNOWN(C10_from_chars_out_of_range_ptr, r.cls == 2);
-  FROM_CHARS_POST(u8); }
+  FROM_CHARS_POST(u8, VF_KNOWN_GUARD(C10_from_chars_out_of_range_ptr, r.cls == 2)); }
 
 /*@GROUP name=to_integer_i8 props=C10,C02 kind=K unwind=14 solver=kissat@*/
 void h_to_integer_i8(void) { SYM_BASE(); RANGE_IN(11); TO_INTEGER_PRE(i8, 8, 11);
@@ -319,13 +317,11 @@ void h_from_integer_u16(void) { SYM_BASE(); FMT_PRE(u16, 16, 16, 18);
 
 /*@GROUP name=from_chars_i16 props=C10,C02 kind=K unwind=22 tier=thorough timeout=600 cost=3 split=CC_B:2:36 solver=kissat@*/
 void h_from_chars_i16(void) { const int base = CC_B; RANGE_IN(CC_D16 + 3); FROM_CHARS_PRE(i16, 16, CC_D16 + 3);
-  VF_KNOWN(C10_from_chars_out_of_range_ptr, r.cls == 2);
-  FROM_CHARS_POST(i16); }
+  FROM_CHARS_POST(i16, VF_KNOWN_GUARD(C10_from_chars_out_of_range_ptr, r.cls == 2)); }
 
 /*@GROUP name=from_chars_u16 props=C10,C02 kind=K unwind=22 tier=thorough timeout=600 cost=3 split=CC_B:2:36 solver=kissat@*/
 void h_from_chars_u16(void) { const int base = CC_B; RANGE_IN(CC_D16 + 3); FROM_CHARS_PRE(u16, 16, CC_D16 + 3);
-  VF_KNOWN(C10_from_chars_out_of_range_ptr, r.cls == 2);
-  FROM_CHARS_POST(u16); }
+  FROM_CHARS_POST(u16, VF_KNOWN_GUARD(C10_from_chars_out_of_range_ptr, r.cls == 2)); }
 
 /*@GROUP name=to_integer_i16 props=C10,C02 kind=K unwind=22 tier=thorough timeout=600 cost=3 split=CC_B:2:36 solver=kissat@*/
 void h_to_integer_i16(void) { const int base = CC_B; RANGE_IN(CC_D16 + 3); TO_INTEGER_PRE(i16, 16, CC_D16 + 3); TO_INTEGER_POST(i16); }
@@ -428,33 +424,27 @@ void h_to_string_ll_win(void) { const int base = 10; VF_INPUT(u8, which);
 /* ---- parsing: from_chars / to_integer on the full domain ---- */
 /*@GROUP name=from_chars_i32 props=C10,C02 kind=K unwind=17 tier=thorough timeout=1200 split=CC_BI:0:3 cost=6 solver=kissat@*/
 void h_from_chars_i32(void) { const int base = CC_BASE; RANGE_IN(CC_D32 + 3); FROM_CHARS_PRE(i32, 32, CC_D32 + 3);
-  VF_KNOWN(C10_from_chars_out_of_range_ptr, r.cls == 2);
-  FROM_CHARS_POST(i32); }
+  FROM_CHARS_POST(i32, VF_KNOWN_GUARD(C10_from_chars_out_of_range_ptr, r.cls == 2)); }
 
 /*@GROUP name=from_chars_u32 props=C10,C02 kind=K unwind=17 tier=thorough timeout=1200 split=CC_BI:0:3 cost=6 solver=kissat@*/
 void h_from_chars_u32(void) { const int base = CC_BASE; RANGE_IN(CC_D32 + 3); FROM_CHARS_PRE(u32, 32, CC_D32 + 3);
-  VF_KNOWN(C10_from_chars_out_of_range_ptr, r.cls == 2);
-  FROM_CHARS_POST(u32); }
+  FROM_CHARS_POST(u32, VF_KNOWN_GUARD(C10_from_chars_out_of_range_ptr, r.cls == 2)); }
 
 /*@GROUP name=from_chars_i32_b2 props=C10,C02 kind=K unwind=38 tier=thorough timeout=1200 cost=6 solver=kissat@*/
 void h_from_chars_i32_b2(void) { const int base = 2; RANGE_IN(35); FROM_CHARS_PRE(i32, 32, 35);
-  VF_KNOWN(C10_from_chars_out_of_range_ptr, r.cls == 2);
-  FROM_CHARS_POST(i32); }
+  FROM_CHARS_POST(i32, VF_KNOWN_GUARD(C10_from_chars_out_of_range_ptr, r.cls == 2)); }
 
 /*@GROUP name=from_chars_i64 props=C10,C02 kind=K unwind=28 tier=thorough timeout=1500 split=CC_BI:0:3 cost=9 solver=kissat@*/
 void h_from_chars_i64(void) { const int base = CC_BASE; RANGE_IN(CC_D64 + 3); FROM_CHARS_PRE(i64, 64, CC_D64 + 3);
-  VF_KNOWN(C10_from_chars_out_of_range_ptr, r.cls == 2);
-  FROM_CHARS_POST(i64); }
+  FROM_CHARS_POST(i64, VF_KNOWN_GUARD(C10_from_chars_out_of_range_ptr, r.cls == 2)); }
 
 /*@GROUP name=from_chars_u64 props=C10,C02 kind=K unwind=28 tier=thorough timeout=1200 split=CC_BI:0:3 cost=6 solver=kissat@*/
 void h_from_chars_u64(void) { const int base = CC_BASE; RANGE_IN(CC_D64 + 3); FROM_CHARS_PRE(u64, 64, CC_D64 + 3);
-  VF_KNOWN(C10_from_chars_out_of_range_ptr, r.cls == 2);
-  FROM_CHARS_POST(u64); }
+  FROM_CHARS_POST(u64, VF_KNOWN_GUARD(C10_from_chars_out_of_range_ptr, r.cls == 2)); }
 
 /*@GROUP name=from_chars_u64_b2 props=C10,C02 kind=K unwind=70 tier=thorough timeout=1200 cost=6 solver=kissat@*/
 void h_from_chars_u64_b2(void) { const int base = 2; RANGE_IN(67); FROM_CHARS_PRE(u64, 64, 67);
-  VF_KNOWN(C10_from_chars_out_of_range_ptr, r.cls == 2);
-  FROM_CHARS_POST(u64); }
+  FROM_CHARS_POST(u64, VF_KNOWN_GUARD(C10_from_chars_out_of_range_ptr, r.cls == 2)); }
 
 /*@GROUP name=to_integer_i32 props=C10,C02 kind=K unwind=17 tier=thorough timeout=1200 split=CC_BI:0:3 cost=6 solver=kissat@*/
 void h_to_integer_i32(void) { const int base = CC_BASE; RANGE_IN(CC_D32 + 3); TO_INTEGER_PRE(i32, 32, CC_D32 + 3); TO_INTEGER_POST(i32); }
